@@ -52,7 +52,7 @@ var c12Positions = []struct {
 }
 
 func init() {
-	floor := []string{"item.async", "item.async-union", "item.async-cte", "item.async-multidim", "item.once-multidim", "item.async-derived", "item.cte-dual-star", "item.fuse-dual-star", "item.fuse", "item.fuse-alias", "item.setvar", "item.async-derived-object", "item.async-join-operand", "item.cte-by-name", "item.fuse-async", "item.marker", "item.await-marker", "reexec.after-fault", "group.mixed-keys", "join.limit", "rich", "parjoin"}
+	floor := []string{"item.async", "item.async-union", "item.async-cte", "item.async-multidim", "item.once-multidim", "item.async-derived", "item.cte-dual-star", "item.fuse-dual-star", "item.fuse", "item.fuse-alias", "item.setvar", "item.async-derived-object", "item.async-derived-value", "item.async-join-operand", "item.cte-by-name", "item.fuse-async", "item.marker", "item.await-marker", "reexec.after-fault", "group.mixed-keys", "join.limit", "rich", "parjoin"}
 	for _, f := range c12Forms {
 		floor = append(floor, "form."+f.name)
 	}
@@ -227,12 +227,24 @@ func c12Matrix(c *fw.Case) {
 		d = newRichDoc(c)
 	}
 	nf, np := len(c12Forms), len(c12Positions)
-	cell := c.Idx % (nf*np + 48)
+	cell := c.Idx % (nf*np + 58)
 	if cell >= nf*np {
 		// special select items
 		var sql string
 		var feat string
-		switch (cell - nf*np) % 24 {
+		switch (cell - nf*np) % 29 {
+		// a derived table's (or CTE's) async column used by value in the outer
+		// query: as a function argument, in WHERE, as a grouping key, in arithmetic
+		case 24:
+			sql, feat = "SELECT x.rid, ARRAY(x.r) AS rs, CONCAT(x.r, '!') AS c FROM (SELECT rid, ASYNC.VBG(s1) AS r FROM t1) x", "item.async-derived-value"
+		case 25:
+			sql, feat = "SELECT x.rid, x.r FROM (SELECT rid, ASYNC.VBG(s1) AS r FROM t1) x WHERE x.r = "+gen.SQLLit(d.t.Rows[c.Intn(len(d.t.Rows))]["s1"], 0), "item.async-derived-value"
+		case 26:
+			sql, feat = "SELECT x.r AS k, COUNT(*) AS n FROM (SELECT rid, ASYNC.VBG(s1) AS r FROM t1) x GROUP BY x.r", "item.async-derived-value"
+		case 27:
+			sql, feat = "WITH q AS (SELECT rid, ASYNC.VBG(n1) AS r FROM t1) SELECT rid, (r + 1) AS r1, IF(r >= 0, 'y', 'n') AS s FROM q WHERE r >= 0", "item.async-derived-value"
+		case 28:
+			sql, feat = "SELECT x.rid, CASE WHEN x.r >= 1 THEN x.r ELSE 0 END AS v FROM (SELECT rid, ASYNC.VBG(n1) AS r FROM t1 WHERE n1 >= 0) x WHERE x.r IN (0, 1, 2, 3) OR x.r > 3", "item.async-derived-value"
 		case 23:
 			// AWAIT directly as a select item, over calls that yield a marker instead of a value
 			sql, feat = "SELECT rid, AWAIT(FUSE(obj)) AS y, AWAIT(SPINASYNC.VBG(s1)) AS z, AWAIT(SETVAR('k', n1)) AS w FROM t1", "item.await-marker"
